@@ -279,7 +279,7 @@ func (p *parent) crashLines(cur *curSched, msg string) {
 	obs["inv"] = false
 	obs["fin"] = false
 	if cur.ending || cur.grant == nil {
-		p.tr.Step(map[string]interface{}{"a": "end", "dead": false}, obs)
+		p.tr.Step(map[string]interface{}{"a": "end", "dead": false, "hung": false}, obs)
 	} else {
 		g := cur.grant
 		p.tr.Step(map[string]interface{}{"a": "step", "t": g["t"], "c": g["c"], "n": g["n"], "w": false, "to": "panic"}, obs)
